@@ -175,28 +175,18 @@ func (w *Writer) WriteRecord(recordSamples int32, recordPreSamples int32, framec
 	if len(data) != w.NumberOfBases {
 		return fmt.Errorf("wrong number of bases, have %v, want %v", len(data), w.NumberOfBases)
 	}
-	if _, err := w.writer.Write(getbytes.FromInt32(int32(recordSamples))); err != nil {
-		return err
-	}
-	if _, err := w.writer.Write(getbytes.FromInt32(int32(recordPreSamples))); err != nil {
-		return err
-	}
-	if _, err := w.writer.Write(getbytes.FromInt64(framecount)); err != nil {
-		return err
-	}
-	if _, err := w.writer.Write(getbytes.FromInt64(timestamp)); err != nil {
-		return err
-	}
-	if _, err := w.writer.Write(getbytes.FromFloat32(pretriggerMean)); err != nil {
-		return err
-	}
-	if _, err := w.writer.Write(getbytes.FromFloat32(pretriggerDelta)); err != nil {
-		return err
-	}
-	if _, err := w.writer.Write(getbytes.FromFloat32(residualStdDev)); err != nil {
-		return err
-	}
-	if _, err := w.writer.Write(getbytes.FromSliceFloat32(data)); err != nil {
+	// One fresh buffer and a single Write per record, so that the non-blocking writer either
+	// queues the whole record or rejects the whole record (never a partial one).
+	buf := make([]byte, 0, 36+4*len(data))
+	buf = append(buf, getbytes.FromInt32(int32(recordSamples))...)
+	buf = append(buf, getbytes.FromInt32(int32(recordPreSamples))...)
+	buf = append(buf, getbytes.FromInt64(framecount)...)
+	buf = append(buf, getbytes.FromInt64(timestamp)...)
+	buf = append(buf, getbytes.FromFloat32(pretriggerMean)...)
+	buf = append(buf, getbytes.FromFloat32(pretriggerDelta)...)
+	buf = append(buf, getbytes.FromFloat32(residualStdDev)...)
+	buf = append(buf, getbytes.FromSliceFloat32(data)...)
+	if _, err := w.writer.Write(buf); err != nil {
 		return err
 	}
 	w.recordsWritten++
